@@ -1,3 +1,14 @@
 import Pcore.Props.C13
-open Pcore.LoaderConc
-#print axioms C13_placeholder
+open Pcore.LoaderConc Pcore.Lockset
+#print axioms C13_writeonce
+#print axioms C13_writeonce_reach
+#print axioms C13_agree
+#print axioms C13_found_has_source
+#print axioms C13_nocrash
+#print axioms C13_sc_partial
+#print axioms C13_load_answer
+#print axioms C13_full_fails
+#print axioms C13_miss_window_crash_before_fix
+#print axioms C13_lockset_norace
+#print axioms C13_lockset_ok
+#print axioms C13_impl_norace
